@@ -32,6 +32,12 @@ class Driver:
         ns = b.calls(r'Automaton::next_state$')
         self.ns = ns
         self.nsb = ns[0][0] if len(ns) == 1 else None
+        # the state variable of the walk: the destination of next_state (also its third argument)
+        self.sidv = None
+        if len(ns) == 1:
+            d0 = ns[0][1]['dest']
+            if not d0['pr']:
+                self.sidv = b.local_term(d0['l'])
         if self.over:
             self.state = param_of_type(b, r'automaton::OverlappingState')
             self.cur = ('f', self.state, 'at')
@@ -850,7 +856,7 @@ def r01_5(cx):
         start = sid_is_start_only(d, cb, peel(ct[2][1]))
         pos = ct[2][3]
         okpos = (pos == d.cur) if start else d.plus1(pos)
-        okidx = ct[2][2] == ('c', 0) and peel(ct[2][0]) == d.aut and is_var(peel(ct[2][1]), 'sid')
+        okidx = ct[2][2] == ('c', 0) and peel(ct[2][0]) == d.aut and (peel(ct[2][1]) == d.sidv or is_var(peel(ct[2][1]), 'sid'))
         cx.report('R01.5', b, 'mat-pos:%s' % ('start' if start else 'loop'), okpos and okidx, 'get_match(aut, sid, 0, %s)' % ('at' if start else 'at + 1') if okpos and okidx else 'match is built as %s' % tstr(ct, 160), line_of(b, bi, si))
     # returns
     rets = [(bi, b.rvalue_term(st['r'], 0, bi)) for bi, si, pl, st in b.stores() if si != 'term' and pl['l'] == 0 and not pl['pr']]
